@@ -138,6 +138,8 @@ PROGRAMS = [
     # the import-request list itself is compared: one file under two spellings, a type-only import next to a value import
     'import { a } from "./utils"; import { b } from "./lib/../utils"; a + b',
     'import type { T } from "./types"; import { v } from "./values"; v',
+    # a module that suspends and goes on using its own scope afterwards (eval hands over to step at the first suspension)
+    'import { order } from "tsrun:host"; const k = 5; function f(x) { return x + k } const r = await order({a:1}); const s = await order({a:2}); f(r) + s',
 ]
 
 COUNTER = 'let n = 0; export function bump() { n = n + 1; return n } export { n as count }; export let plain = 1; export function touch() { plain = plain + 1 } export default "counter";'
